@@ -52,6 +52,21 @@ type Loaded struct {
 	srcFiles               map[string]bool
 }
 
+// commonApplies: a shared file names the packages it belongs to in a line "//verif:for a b c".
+func commonApplies(src, relPkg string) bool {
+	for _, line := range strings.Split(src, "\n") {
+		if strings.HasPrefix(line, "//verif:for ") {
+			for _, p := range strings.Fields(line[len("//verif:for "):]) {
+				if p == relPkg {
+					return true
+				}
+			}
+			return false
+		}
+	}
+	return false
+}
+
 func norm(s string) string { return strings.ReplaceAll(s, " ", "") }
 
 var directiveRe = regexp.MustCompile(`^//verif:(\w+)\s*(.*)$`)
@@ -81,6 +96,24 @@ func LoadPackage(repo, harnessRoot, relPkg string) (*Loaded, error) {
 	}
 	if pkgName == "" {
 		return nil, fmt.Errorf("no harness files in %s", hdir)
+	}
+	// shared files (package clause rewritten): harness/_common/*.go, selected per package by a "//verif:for" line
+	cents, _ := os.ReadDir(filepath.Join(harnessRoot, "_common"))
+	for _, e := range cents {
+		n := e.Name()
+		if !strings.HasSuffix(n, ".go") || strings.HasSuffix(n, "_native.go") {
+			continue
+		}
+		b, err := os.ReadFile(filepath.Join(harnessRoot, "_common", n))
+		if err != nil {
+			return nil, err
+		}
+		if !commonApplies(string(b), relPkg) {
+			continue
+		}
+		dst := filepath.Join(repo, relPkg, "zz_verif_common_"+n)
+		overlay[dst] = []byte(strings.Replace(string(b), "package PKG", "package "+pkgName, 1))
+		ofiles = append(ofiles, dst)
 	}
 	rt := strings.Replace(rtEngineSrc, "package PKG", "package "+pkgName, 1)
 	rtPath := filepath.Join(repo, relPkg, "zz_verif_rt.go")
